@@ -7,7 +7,7 @@ use serde::de::{self, DeserializeSeed, Deserializer, EnumAccess, MapAccess, SeqA
 use serde::ser::{SerializeMap, SerializeSeq, SerializeStruct, SerializeStructVariant, SerializeTuple, SerializeTupleStruct, SerializeTupleVariant, Serializer};
 use std::fmt;
 
-pub const FIELD_NAMES: [&str; 10] = ["a", "b", "c", "d", "e", "f", "g", "h", "key", "x-y"];
+pub const FIELD_NAMES: [&str; 15] = ["a", "b", "c", "d", "e", "f", "g", "h", "key", "x-y", "content type", "größe", "x.y", "", "1"];
 pub const VARIANT_NAMES: [&str; 6] = ["V0", "V1", "Unit", "New", "Tup", "Str"];
 pub const TYPE_NAMES: [&str; 4] = ["S", "T", "E", "N"];
 
@@ -263,14 +263,14 @@ fn gen_shape_at(rng: &mut Rng, depth: usize, place: Place) -> Shape {
     }
     match rng.below(13) {
         0 | 1 if place == Place::Field => {
-            // Option: only where "missing => None" applies; never Option<Option<_>>
-            let inner = loop {
-                let s = gen_shape_at(rng, depth + 1, Place::Payload);
-                if !matches!(s, Shape::Opt(_)) {
-                    break s;
-                }
-            };
-            Shape::Opt(Box::new(inner))
+            // Option: where "missing => None" applies. Now and then an option in an option, or behind
+            // a newtype struct: there a `None` cannot be left out and must be refused, not lost
+            let inner = gen_shape_at(rng, depth + 1, Place::Payload);
+            match rng.below(10) {
+                0 => Shape::Opt(Box::new(Shape::Opt(Box::new(inner)))),
+                1 => Shape::Newtype(*rng.pick(&TYPE_NAMES), Box::new(Shape::Opt(Box::new(inner)))),
+                _ => Shape::Opt(Box::new(inner)),
+            }
         }
         2 if place == Place::SeqElem && rng.chance(1, 6) => {
             // documented errors: None / unit inside a sequence
@@ -307,6 +307,17 @@ pub fn gen_root_shape(rng: &mut Rng) -> Shape {
         Shape::Map(MapKey::Str, Box::new(gen_shape_at(rng, 1, Place::MapValue)))
     } else {
         Shape::Struct(*rng.pick(&TYPE_NAMES), gen_fields(rng, 0, 1))
+    }
+}
+
+/// mostly a table root; sometimes the table sits behind a newtype struct or an `Option`, or the
+/// root is an externally tagged enum
+pub fn gen_root_shape_wrapped(rng: &mut Rng) -> Shape {
+    match rng.below(12) {
+        0 => Shape::Newtype(*rng.pick(&TYPE_NAMES), Box::new(gen_root_shape(rng))),
+        1 => Shape::Opt(Box::new(gen_root_shape(rng))),
+        2 => gen_enum(rng, 0),
+        _ => gen_root_shape(rng),
     }
 }
 
@@ -433,6 +444,9 @@ pub fn gen_value(rng: &mut Rng, s: &Shape) -> Dyn {
 #[derive(Clone, Debug, Default, PartialEq)]
 pub struct Unsupported {
     pub none_in_seq: bool,
+    /// a `None` that is not itself the value of a struct field (inside `Some`, behind a newtype
+    /// struct, at the root): it cannot be left out, so it is the documented "unsupported None"
+    pub none_nested: bool,
     pub unit_in_seq: bool,
     pub int_beyond_i64: bool,
     pub non_table_root: bool,
@@ -446,18 +460,25 @@ pub struct Unsupported {
 
 impl Unsupported {
     pub fn any_documented(&self) -> bool {
-        self.none_in_seq || self.unit_in_seq || self.int_beyond_i64 || self.non_table_root || self.struct_variant_at_root
+        self.none_in_seq || self.none_nested || self.unit_in_seq || self.int_beyond_i64 || self.non_table_root || self.struct_variant_at_root
     }
 }
 
 fn scan(s: &Shape, v: &Dyn, in_seq: bool, u: &mut Unsupported) {
+    scan_at(s, v, in_seq, false, u)
+}
+
+/// `bare_field`: this value is directly the value of a struct (or struct variant) field
+fn scan_at(s: &Shape, v: &Dyn, in_seq: bool, bare_field: bool, u: &mut Unsupported) {
     match (s, v) {
         (Shape::Opt(_), Dyn::None) => {
             if in_seq {
                 u.none_in_seq = true;
+            } else if !bare_field {
+                u.none_nested = true;
             }
         }
-        (Shape::Opt(inner), Dyn::Some(x)) => scan(inner, x, in_seq, u),
+        (Shape::Opt(inner), Dyn::Some(x)) => scan_at(inner, x, in_seq, false, u),
         (Shape::Unit, _) | (Shape::UnitStruct(_), _) => {
             if in_seq {
                 u.unit_in_seq = true;
@@ -480,12 +501,12 @@ fn scan(s: &Shape, v: &Dyn, in_seq: bool, u: &mut Unsupported) {
         (Shape::Seq(inner), Dyn::Seq(xs)) => xs.iter().for_each(|x| scan(inner, x, true, u)),
         (Shape::Tuple(ss), Dyn::Fields(xs)) | (Shape::TupleStruct(_, ss), Dyn::Fields(xs)) => ss.iter().zip(xs).for_each(|(s, x)| scan(s, x, true, u)),
         (Shape::Newtype(_, inner), x) => scan(inner, x, in_seq, u),
-        (Shape::Struct(_, f), Dyn::Fields(xs)) => f.iter().zip(xs).for_each(|((_, s), x)| scan(s, x, false, u)),
+        (Shape::Struct(_, f), Dyn::Fields(xs)) => f.iter().zip(xs).for_each(|((_, s), x)| scan_at(s, x, false, true, u)),
         (Shape::Map(_, inner), Dyn::Map(kv)) => kv.iter().for_each(|(_, x)| scan(inner, x, false, u)),
         (Shape::Enum(_, vs), Dyn::Variant(i, p)) => match (&vs[*i].1, &**p) {
             (Variant::Newtype(s), x) => scan(s, x, false, u),
             (Variant::Tuple(ss), Dyn::Fields(xs)) => ss.iter().zip(xs).for_each(|(s, x)| scan(s, x, true, u)),
-            (Variant::Struct(f), Dyn::Fields(xs)) => f.iter().zip(xs).for_each(|((_, s), x)| scan(s, x, false, u)),
+            (Variant::Struct(f), Dyn::Fields(xs)) => f.iter().zip(xs).for_each(|((_, s), x)| scan_at(s, x, false, true, u)),
             _ => {}
         },
         _ => {}
